@@ -5,6 +5,11 @@ stdout: one line per input: JSON {"wellformed": bool|str, "valid": [true|false|s
 Numbers are read exactly (int / Decimal); `nullable` is the OpenAPI 3.0 extension; formats are not enforced."""
 import sys, json
 from decimal import Decimal
+import decimal
+# exact arithmetic: 10^-323 against 20-digit integers needs room (the default context has 28 digits)
+decimal.getcontext().prec = 2000
+decimal.getcontext().Emax = 999999
+decimal.getcontext().Emin = -999999
 import jsonschema
 from jsonschema import Draft4Validator
 
